@@ -31,7 +31,8 @@ Oracle (reference model written from the statement; no luna code): toggle bit T 
  * T flips iff the host put a valid one-byte ACK on the wire after the answer; ``tx_pid_toggle`` changes and
    ``status_read_complete`` pulses exactly once in [start of that ACK, its end + 12 cycles] and never elsewhere.
 
-Known finding (findings/C17.md, same root cause as C12's finding): mechanism `toggle_advanced_by_ack_to_other_device`
+Finding (findings/C17.md, same root cause as C12's finding; fixed in /repo by commit 94bf9a6, known_findings.d/C17.json
+entry marked `fixed`, so a regression fails the run): mechanism `toggle_advanced_by_ack_to_other_device`
 is reported only when the endpoint advanced (strobe and/or toggle change) inside the host's ACK of a transaction with
 ANOTHER device address while P was outstanding and no token for this device had been sent since P.  The model then
 follows the device (T flips, P dropped) so that every other deviation keeps its own mechanism name.
@@ -103,9 +104,9 @@ def run_case(rng, tier, res):
 
     # ------------------------------------------------------------------ configuration
     wsel = rng.random()
-    if wsel < 0.62:
+    if wsel < 0.58:
         width = rng.randint(1, 40)
-    elif wsel < 0.92:
+    elif wsel < 0.88:
         width = rng.choice([1, 2, 7, 8, 9, 15, 16, 17, 23, 24, 25, 31, 32, 33, 39, 40])
     else:
         width = rng.choice([41, 47, 48, 56, 63, 64])
